@@ -1,1 +1,337 @@
-//! harness crate vh_span
+//! Shared engine of the C03 / C04 / C18 conformance harnesses.
+//!
+//! A *case* is a program printed by TLC: a sequence of steps, each naming the model thread
+//! that performs it and carrying the observation the specification predicts after it.
+//! Every model thread is a dedicated OS thread (fresh per case: the state under test is
+//! thread-local) that sits in a command loop.  Entering a frame, polling a task or running a
+//! span body *nests* another command loop inside the real `Frame::call` / `EnterGuard` /
+//! `FrameFuture::poll` / macro-generated span body, so the nesting of the program is the real
+//! nesting of the Rust call stack, and a scripted panic is a real `panic!` unwinding through
+//! the real guards.  The driver sends one step at a time, waits for its completion and then
+//! asks every thread what it observes.
+use std::cell::RefCell;
+use std::future::Future;
+use std::panic::{catch_unwind, resume_unwind, AssertUnwindSafe};
+use std::pin::Pin;
+use std::sync::mpsc::{channel, Receiver, RecvTimeoutError, Sender};
+use std::task::{Context, Poll, Waker};
+use std::time::Duration;
+
+pub use vh_common::*;
+
+pub mod world;
+
+pub enum Cmd {
+    Step(Value),
+    Observe,
+    Quit,
+}
+
+/// Why a nested command loop returned.
+#[derive(Debug)]
+pub enum Leave {
+    /// `exit` / `end`: leave the innermost synchronous frame (the step is passed along)
+    Exit(Value),
+    /// the hand-written future returns `Pending`
+    Yield(Value),
+    /// the hand-written future returns `Ready`
+    Complete(Value),
+    /// the case is over: unwind everything quietly
+    Quit,
+}
+
+pub type Panicked = Box<dyn std::any::Any + Send + 'static>;
+
+pub trait Machine: Sync + 'static {
+    /// Perform one step on the calling model thread.  Must send exactly one reply for the
+    /// step (before nesting `run_loop`, if it nests) and, when it nested a loop that was left
+    /// by a step, exactly one reply for that leaving step after cleaning up.
+    /// Returns `Some(Leave::Quit)` when a nested loop was left because the case is over.
+    fn exec(&'static self, step: &Value) -> Option<Leave>;
+    /// What the calling model thread observes right now.
+    fn observe(&'static self) -> Value;
+}
+
+thread_local! {
+    static CHAN: RefCell<Option<(Receiver<Cmd>, Sender<Value>)>> = const { RefCell::new(None) };
+}
+
+pub fn reply(v: Value) {
+    CHAN.with(|c| {
+        let c = c.borrow();
+        let _ = c.as_ref().expect("not a model thread").1.send(v);
+    })
+}
+
+pub fn reply_ok() {
+    reply(json!({"ok": true}))
+}
+
+fn recv() -> Cmd {
+    CHAN.with(|c| {
+        let c = c.borrow();
+        c.as_ref().expect("not a model thread").0.recv().unwrap_or(Cmd::Quit)
+    })
+}
+
+pub const SCRIPTED_PANIC: &str = "scripted panic";
+
+/// The command loop.  Nested by `Machine::exec` implementations.
+pub fn run_loop<M: Machine>(m: &'static M) -> Leave {
+    loop {
+        match recv() {
+            Cmd::Quit => return Leave::Quit,
+            Cmd::Observe => {
+                let o = m.observe();
+                reply(o)
+            }
+            Cmd::Step(step) => {
+                let op = step["op"].as_str().unwrap_or("").to_string();
+                match op.as_str() {
+                    "exit" | "end" => return Leave::Exit(step),
+                    "yield" => return Leave::Yield(step),
+                    "complete" => return Leave::Complete(step),
+                    "panic" => panic!("{}", SCRIPTED_PANIC),
+                    _ => {
+                        if let Some(Leave::Quit) = m.exec(&step) {
+                            return Leave::Quit;
+                        }
+                    }
+                }
+            }
+        }
+    }
+}
+
+fn panic_text(e: &Panicked) -> String {
+    if let Some(s) = e.downcast_ref::<&str>() {
+        s.to_string()
+    } else if let Some(s) = e.downcast_ref::<String>() {
+        s.clone()
+    } else {
+        "panic".to_string()
+    }
+}
+
+fn thread_main<M: Machine>(m: &'static M, rx: Receiver<Cmd>, tx: Sender<Value>) {
+    CHAN.with(|c| *c.borrow_mut() = Some((rx, tx)));
+    loop {
+        match catch_unwind(AssertUnwindSafe(|| run_loop(m))) {
+            Ok(Leave::Quit) => break,
+            Ok(other) => {
+                // a leaving step at top level: the program is not well nested (spec bug)
+                reply(json!({"tool_error": format!("leave at top level: {other:?}")}));
+            }
+            Err(p) => reply(json!({"panicked": panic_text(&p)})),
+        }
+    }
+    CHAN.with(|c| *c.borrow_mut() = None);
+}
+
+pub struct Outcome {
+    pub mismatch: Option<Value>,
+    pub steps_run: u64,
+}
+
+/// Run one case on fresh OS threads.  `judge(step index, step, reply, observations)` returns a
+/// description of the first disagreement with the prediction, if any.
+pub fn run_case<M: Machine>(
+    m: &'static M,
+    nthreads: usize,
+    steps: &[Value],
+    mut judge: impl FnMut(usize, &Value, &Value, &[Value]) -> Option<Value>,
+) -> Outcome {
+    let mut txs = Vec::new();
+    let mut rxs = Vec::new();
+    let mut handles = Vec::new();
+    for i in 0..nthreads {
+        let (ctx, crx) = channel::<Cmd>();
+        let (rtx, rrx) = channel::<Value>();
+        let h = std::thread::Builder::new()
+            .name(format!("model-{}", i + 1))
+            .stack_size(1 << 20)
+            .spawn(move || thread_main(m, crx, rtx))
+            .unwrap_or_else(|e| tool_error(&format!("spawn: {e}")));
+        txs.push(ctx);
+        rxs.push(rrx);
+        handles.push(h);
+    }
+    let wait = |rx: &Receiver<Value>| -> Value {
+        match rx.recv_timeout(Duration::from_secs(30)) {
+            Ok(v) => v,
+            Err(RecvTimeoutError::Timeout) => json!({"hang": true}),
+            Err(RecvTimeoutError::Disconnected) => json!({"tool_error": "model thread died"}),
+        }
+    };
+    let mut out = Outcome { mismatch: None, steps_run: 0 };
+    let mut hung = false;
+    for (i, step) in steps.iter().enumerate() {
+        let t = step["t"].as_u64().unwrap_or(0) as usize;
+        if t == 0 || t > nthreads {
+            tool_error(&format!("step without thread: {step}"));
+        }
+        let _ = txs[t - 1].send(Cmd::Step(step.clone()));
+        let rep = wait(&rxs[t - 1]);
+        if let Some(e) = rep.get("tool_error") {
+            tool_error(&format!("{e} at step {i} of {}", json!(steps)));
+        }
+        out.steps_run += 1;
+        if rep.get("hang").is_some() {
+            out.mismatch = Some(json!({"step": i, "what": "hang", "detail": "no reply within 30 s"}));
+            hung = true;
+            break;
+        }
+        let mut obs = Vec::with_capacity(nthreads);
+        for u in 0..nthreads {
+            let _ = txs[u].send(Cmd::Observe);
+            let o = wait(&rxs[u]);
+            if o.get("hang").is_some() {
+                hung = true;
+            }
+            obs.push(o);
+        }
+        if let Some(mut mm) = judge(i, step, &rep, &obs) {
+            mm["step"] = json!(i);
+            out.mismatch = Some(mm);
+            break;
+        }
+        if hung {
+            out.mismatch = Some(json!({"step": i, "what": "hang", "detail": "observation hung"}));
+            break;
+        }
+    }
+    for tx in &txs {
+        let _ = tx.send(Cmd::Quit);
+    }
+    drop(txs);
+    if !hung {
+        for h in handles {
+            let _ = h.join();
+        }
+    }
+    out
+}
+
+/// Poll a boxed future once with a no-op waker.
+pub fn poll_once<T>(fut: &mut Pin<Box<dyn Future<Output = T> + Send>>) -> Poll<T> {
+    let mut cx = Context::from_waker(Waker::noop());
+    fut.as_mut().poll(&mut cx)
+}
+
+/// Run `f`; give back its panic instead of unwinding.
+pub fn catching<R>(f: impl FnOnce() -> R) -> Result<R, Panicked> {
+    catch_unwind(AssertUnwindSafe(f))
+}
+
+pub fn rethrow<R>(r: Result<R, Panicked>) -> R {
+    match r {
+        Ok(v) => v,
+        Err(p) => resume_unwind(p),
+    }
+}
+
+/// The hand-written future every task wraps: each poll runs a nested command loop until the
+/// program says `yield` (Pending) or `complete` (Ready).
+pub struct ScriptFuture<M: Machine> {
+    pub m: &'static M,
+}
+
+impl<M: Machine> Future for ScriptFuture<M> {
+    type Output = Leave;
+    fn poll(self: Pin<&mut Self>, _: &mut Context<'_>) -> Poll<Leave> {
+        // the `poll` step (which may have begun a span and entered a frame) is done
+        reply_ok();
+        match run_loop(self.m) {
+            l @ Leave::Yield(_) => {
+                // stash the step for the poller; Pending carries no value
+                YIELDED.with(|y| *y.borrow_mut() = Some(l));
+                Poll::Pending
+            }
+            l @ (Leave::Complete(_) | Leave::Quit) => Poll::Ready(l),
+            Leave::Exit(s) => {
+                reply(json!({"tool_error": format!("exit inside a poll segment: {s}")}));
+                Poll::Ready(Leave::Quit)
+            }
+        }
+    }
+}
+
+thread_local! {
+    static YIELDED: RefCell<Option<Leave>> = const { RefCell::new(None) };
+}
+
+/// What the innermost `ScriptFuture` on this thread said when it returned `Pending`.
+pub fn take_yield() -> Option<Leave> {
+    YIELDED.with(|y| y.borrow_mut().take())
+}
+
+/// Shard ndjson cases over `workers` driver threads; `mk` builds one machine + judge state per
+/// worker and `run(worker state, case number, case) -> Outcome` runs a case.
+pub fn drive<S: Send + 'static>(
+    path: &str,
+    workers: usize,
+    mk: impl Fn(usize) -> S + Send + Sync + 'static,
+    run: impl Fn(&mut S, usize, &Value) -> Outcome + Send + Sync + 'static,
+) -> Report {
+    let mut cases: Vec<(usize, String)> = Vec::new();
+    {
+        use std::io::BufRead;
+        let file = std::fs::File::open(path).unwrap_or_else(|e| tool_error(&format!("open {path}: {e}")));
+        for (i, line) in std::io::BufReader::with_capacity(1 << 20, file).lines().enumerate() {
+            let line = line.unwrap_or_else(|e| tool_error(&format!("read {path}: {e}")));
+            if !line.trim().is_empty() {
+                cases.push((i + 1, line));
+            }
+        }
+    }
+    let cases = std::sync::Arc::new(cases);
+    let next = std::sync::Arc::new(std::sync::atomic::AtomicUsize::new(0));
+    let mk = std::sync::Arc::new(mk);
+    let run = std::sync::Arc::new(run);
+    let mut hs = Vec::new();
+    for w in 0..workers.max(1) {
+        let (cases, next, mk, run) = (cases.clone(), next.clone(), mk.clone(), run.clone());
+        hs.push(std::thread::spawn(move || {
+            let mut st = mk(w);
+            let mut rep = Report::new();
+            loop {
+                let i = next.fetch_add(1, std::sync::atomic::Ordering::Relaxed);
+                if i >= cases.len() {
+                    break;
+                }
+                let (no, line) = &cases[i];
+                let case: Value = serde_json::from_str(line)
+                    .unwrap_or_else(|e| tool_error(&format!("case {no}: bad json: {e}")));
+                // a stored replay names the case number it had (the harness derives the
+                // representation choices the specification does not distinguish from it)
+                let no = case.get("no").and_then(|n| n.as_u64()).map(|n| n as usize).unwrap_or(*no);
+                let o = run(&mut st, no, &case);
+                rep.cases += 1;
+                rep.checks += o.steps_run;
+                if let Some(mut mm) = o.mismatch {
+                    mm["no"] = json!(no);
+                    let what = mm["what"].as_str().unwrap_or("mismatch").to_string();
+                    rep.mismatch(&what, &case, mm);
+                }
+            }
+            rep
+        }));
+    }
+    let mut total = Report::new();
+    for h in hs {
+        let r = h.join().unwrap_or_else(|_| tool_error("driver worker panicked"));
+        total.cases += r.cases;
+        total.checks += r.checks;
+        total.total_mismatches += r.total_mismatches;
+        for m in r.mismatches {
+            if total.mismatches.len() < total.max_mismatches {
+                total.mismatches.push(m);
+            }
+        }
+    }
+    total
+}
+
+pub fn workers_from_env() -> usize {
+    std::env::var("VERIF_WORKERS").ok().and_then(|s| s.parse().ok()).unwrap_or(6)
+}
